@@ -236,7 +236,6 @@ Definition bracket_ok (d s : text) : Prop :=
   forallb (fun x => negb (N.eqb x c_lb || N.eqb x c_rb)) d = true
   /\ is_fstring_delim d = false
   /\ forallb (fun c => negb (N.eqb c c_cr)) s = true
-  /\ N.eqb (hd 0 s) c_nl = false
   /\ contains (closing_delim_text d) s = false
   /\ delim_closes d s = true.
 
@@ -249,7 +248,7 @@ Qed.
 Lemma read_bracket_string rec d s rest : bracket_ok d s ->
   form_body W rec (hy_bracket_str d s ++ rest) = RForm (Some (MStr s (Some d))) rest.
 Proof.
-  intros (Hd & Hf & Hcr & Hnl & Hcont & Hcl).
+  intros (Hd & Hf & Hcr & Hcont & Hcl).
   unfold hy_bracket_str, form_body. cbn [app]. rewrite skip_ws_nonws by reflexivity.
   change (dispatch c_hash) with DHash. cbv iota. unfold hash_body.
   change (is_pyspace c_lb) with false. cbv iota. unfold span_ident. rewrite span_none by reflexivity.
@@ -258,19 +257,27 @@ Proof.
   rewrite (span_app _ d) by (try exact Hd; reflexivity).
   change (N.eqb c_lb c_rb) with false. cbv iota. fold (is_fstring_delim d). rewrite Hf.
   set (body := (s ++ c_rb :: d ++ [c_rb]) ++ rest).
-  assert (Hb1 : match body with x :: t => if N.eqb x c_cr then t else body | [] => body end = body).
-  { unfold body. destruct s as [|x s']; [reflexivity|]. cbn [app forallb] in *. apply andb_prop in Hcr as [Hx _].
-    apply negb_true_iff in Hx. rewrite Hx. reflexivity. }
-  rewrite Hb1.
-  assert (Hb2 : match body with x :: t => if N.eqb x c_nl then t else body | [] => body end = body).
-  { unfold body. destruct s as [|x s']; [reflexivity|]. cbn [app hd] in *. rewrite Hnl. reflexivity. }
-  rewrite Hb2. unfold read_string_body. cbn [init_state].
+  (* after the optional carriage return and the optional newline are dropped, the content follows *)
+  assert (Hdrop : forall pre,
+            pre = lead_nl s ->
+            (let r4 := pre ++ body in
+             let r5 := match r4 with x :: t => if N.eqb x c_cr then t else r4 | [] => r4 end in
+             match r5 with x :: t => if N.eqb x c_nl then t else r5 | [] => r5 end) = body).
+  { intros pre ->. unfold lead_nl, body. destruct s as [|x s']; [reflexivity|].
+    cbn [forallb] in Hcr. apply andb_prop in Hcr as [Hx _]. apply negb_true_iff in Hx.
+    cbn [starts_with]. destruct (N.eqb c_nl x) eqn:E.
+    - apply N.eqb_eq in E. subst x. cbn [andb app]. change (N.eqb c_nl c_cr) with false. cbv iota.
+      change (N.eqb c_nl c_nl) with true. reflexivity.
+    - cbn [andb app]. rewrite Hx. cbv iota. rewrite N.eqb_sym, E. reflexivity. }
+  specialize (Hdrop (lead_nl s) eq_refl). cbv zeta in Hdrop.
+  replace ((lead_nl s ++ s ++ c_rb :: d ++ [c_rb]) ++ rest) with (lead_nl s ++ body)
+    by (unfold body; rewrite <- !app_assoc; reflexivity).
+  rewrite Hdrop. unfold read_string_body. cbn [init_state].
   unfold delim_closes in Hcl.
   destruct (chars_until (CDelim d) false true (StDelim None) false [] (s ++ closing_delim_text d)) as [c [|] [|] st|] eqn:E;
     try discriminate.
   apply text_eqb_eq in Hcl. subst c.
-  assert (Hbody : body = (s ++ closing_delim_text d) ++ rest).
-  { reflexivity. }
+  assert (Hbody : body = (s ++ closing_delim_text d) ++ rest) by reflexivity.
   rewrite Hbody, (chars_until_extend _ _ _ _ _ _ _ _ rest E).
   unfold decode. cbn [andb]. rewrite norm_newlines_id by exact Hcr.
   unfold mk_string. rewrite Hcont. reflexivity.
